@@ -409,6 +409,37 @@ def run(ck):
     ck.oblige("readers of the intern queue (node table walk, feature read-back) on minimum-length and longer messages behind too-short ones: no sanitizer report (%d runs)" % len(fjobs),
               len(ck.violations) == nviolF, "")
 
+    # ---- stream G: the same well-formed messages against a node-state table with history: requests outstanding (one or two,
+    #      the last one or not), the clock advanced beyond the expiry time or not, then spontaneous / answering / other-type
+    #      messages from that node and from another one; the receiver must stay alive
+    nviolG = len(ck.violations)
+    gjobs = []
+    reqs = [(0x05, []), (0x02, []), (0x19, [0, 0])]          # requests with a response entry (unique id, magic, string)
+    for nreq in (1, 2):
+        for dt in (0, 1, 2, 3, 60):
+            for fty, fdata in ((0xA0, [5]), (0xA1, [5]), (0x84, [1, 2, 3, 4, 5, 6, 7]), (0x81, [0xFE, 0xAF]), (0x8B, [1, 2]), (0x95, [0, 0, 1, 65])):
+                body = ["time 1000"] + ["send 1 0 0 %d %s" % (ty, hexs(d) if d else "-") for ty, d in reqs[:nreq]] + ["flush", "time %d" % (1000 + dt)]
+                body += ["rx " + hexs(frame(upmsg([1], 7, fty, fdata))), "rx " + hexs(frame(upmsg([2], 7, fty, fdata))), "rx " + hexs(frame(upmsg([1], 8, fty, fdata)))]
+                gjobs.append((nreq, dt, fty, body))
+    def hist(job):
+        nreq, dt, fty, body = job
+        return vlib.run_driver(exe, session(0, ["case s"] + body + ["discard q", "discard e", "discard i", "case live", "rx " + hexs(frame(PROBE)), "drain q"]), timeout=40)
+    with ThreadPoolExecutor(16) as ex:
+        gres = list(ex.map(hist, gjobs))
+    for (nreq, dt, fty, body), (rc, out, err) in zip(gjobs, gres):
+        evals += 1
+        cs = vlib.split_cases(out)
+        rep = {"property": "C12", "script": session(0, ["case s"] + body).splitlines(), "outstanding_requests": nreq, "clock_advance_s": dt}
+        if rc != 0 or cs.get("live") is None:
+            key = asan_key(err, fty) or "crash.after-history.type-%02x" % fty
+            faults[key] = faults.get(key, 0) + 1
+            ck.violation(key, dict(rep, reason="sanitizer report / crash while handling a well-formed message from a node with outstanding (possibly expired) requests", stderr=san_excerpt(err)))
+        elif "q " + hexs(PROBE) not in cs["live"]:
+            ck.violation("stuck.after-history.type-%02x" % fty, dict(rep, observed=cs.get("live"), reason="receiver did not deliver the following well-formed packet"))
+    dist["node-state-histories"] = len(gjobs)
+    ck.oblige("well-formed messages against node-state histories (outstanding and expired requests): receiver alive, no sanitizer report (%d runs)" % len(gjobs),
+              len(ck.violations) == nviolG, "")
+
     ck.coverage.update({"evaluations": evals, "distinct_nontrivial": len(streams) + len(set((t, len(d)) for c, t, n, d in singles)) + len(vend) + len(mult) + len(addr) + len(diag) + len(se) + len(vec),
                         "distribution": dist, "fault_keys_seen": faults,
                         "rule": "framing level: oversized packets, length byte 0, truncated messages, missing terminator, 4+ address bytes, cut headers, noise, bit flips, 255-byte packets, stray escapes, each followed by a liveness probe, in debug and normal mode; dispatcher level: every handled type x every data length 0..min+3, 12 and long x adversarial field values from two equipped nodes and an unknown node, one process each under ASan+UBSan, guard verdict compared with the extracted model; equipped-node sweeps of every data position; variable-length handlers with embedded lengths/counts 0, 1, exact-1, exact, exact+1, 255; all 256 values of every byte indexing a string table; direct handler calls on tight buffers at the model's extent and one below; non-trivial = distinct streams + distinct (type, length) pairs + distinct adversarial payloads",
